@@ -276,6 +276,9 @@ func (t *trans) hasEffect(e ast.Expr) bool {
 		case *ast.StarExpr:
 			eff = true
 		case *ast.CallExpr:
+			if id, ok := x.Fun.(*ast.Ident); ok && id.Name == "len" {
+				return true
+			}
 			eff = true
 		case *ast.IndexExpr:
 			eff = true
@@ -357,6 +360,11 @@ func (t *trans) expr(e ast.Expr) string {
 		case token.SUB:
 			return "(-" + t.expr(x.X) + ")"
 		case token.AND:
+			if cl, ok := x.X.(*ast.CompositeLit); ok {
+				if id, ok := cl.Type.(*ast.Ident); ok && isErrorTypeName(id.Name) {
+					return t.expr(cl) // a pointer to an error struct is the error value
+				}
+			}
 			return "(some " + t.expr(x.X) + ")"
 		}
 	case *ast.BinaryExpr:
@@ -365,7 +373,7 @@ func (t *trans) expr(e ast.Expr) string {
 		return "(← index " + t.expr(x.X) + " " + t.expr(x.Index) + ")"
 	case *ast.CompositeLit:
 		// a value of an error type (`ErrBadStatus{…}`): only its being an error matters to the callers we translate
-		if id, ok := x.Type.(*ast.Ident); ok && strings.HasPrefix(id.Name, "Err") {
+		if id, ok := x.Type.(*ast.Ident); ok && isErrorTypeName(id.Name) {
 			return "(some " + leanStr(id.Name) + ")"
 		}
 	case *ast.CallExpr:
@@ -374,6 +382,9 @@ func (t *trans) expr(e ast.Expr) string {
 	t.failf("%s: unsupported expression %s", t.cur.name, t.src(e))
 	return "default"
 }
+
+// struct types used as error values (`ErrBadStatus`, `InvalidResponseError`): only their being non-nil is modelled
+func isErrorTypeName(n string) bool { return strings.HasPrefix(n, "Err") || strings.HasSuffix(n, "Error") }
 
 func isNil(e ast.Expr) bool {
 	id, ok := e.(*ast.Ident)
@@ -811,6 +822,13 @@ func (t *trans) assign(o *out, ind int, x *ast.AssignStmt) {
 			}
 			return
 		case *ast.SelectorExpr:
+			// errValue.Field = value: the error stays the same non-nil error
+			if tv, ok := t.info.Types[l.X]; ok && x.Tok == token.ASSIGN {
+				if n, _ := namedOf(tv.Type); n != "" && isErrorTypeName(n) {
+					o.line(ind, "let _ := "+t.expr(x.Rhs[0]))
+					return
+				}
+			}
 			// receiver.Field = value
 			if t.isRecv(l.X) && t.cur.mutRecv && x.Tok == token.ASSIGN {
 				tv := t.info.Types[l.X]
@@ -1084,9 +1102,35 @@ func shortFile(p string) string {
 	return p
 }
 
+// endsInReturn: control cannot leave the statement by falling through
 func endsInReturn(s ast.Stmt) bool {
-	_, ok := s.(*ast.ReturnStmt)
-	return ok
+	switch x := s.(type) {
+	case *ast.ReturnStmt:
+		return true
+	case *ast.BlockStmt:
+		return len(x.List) > 0 && endsInReturn(x.List[len(x.List)-1])
+	case *ast.IfStmt:
+		return x.Else != nil && endsInReturn(x.Body) && endsInReturn(x.Else)
+	case *ast.SwitchStmt:
+		hasDefault := false
+		for _, c := range x.Body.List {
+			cc := c.(*ast.CaseClause)
+			if cc.List == nil {
+				hasDefault = true
+			}
+			if len(cc.Body) == 0 || !endsInReturn(cc.Body[len(cc.Body)-1]) {
+				return false
+			}
+		}
+		return hasDefault
+	case *ast.ExprStmt:
+		if c, ok := x.X.(*ast.CallExpr); ok {
+			if id, ok := c.Fun.(*ast.Ident); ok && id.Name == "panic" {
+				return true
+			}
+		}
+	}
+	return false
 }
 
 // Lean type of a go/types type (used for locals that become parameters)
@@ -1175,6 +1219,8 @@ func translate(repo string, p *pkgFiles, outPath string) {
 		{fn: "parseAssertion", recv: "ServiceProvider"},
 		{fn: "parseEncryptedAssertion", recv: "ServiceProvider"},
 		{fn: "parseResponse", recv: "ServiceProvider"},
+		{fn: "findOneChild"},
+		{fn: "parseArtifactResponse", recv: "ServiceProvider"},
 		{fn: "getACSEndpoint", recv: "IdpAuthnRequest", mutRecv: true},
 		{fn: "Validate", recv: "IdpAuthnRequest", mutRecv: true, anchor: "mustHaveDestination :="},
 	}
@@ -1282,7 +1328,7 @@ func translate(repo string, p *pkgFiles, outPath string) {
 	for _, n := range t.extOrder {
 		fmt.Fprintf(&b, "  %s : %s\n", n, t.extSigs[n])
 	}
-	b.WriteString("\n")
+	b.WriteString("  deriving Inhabited\n\n")
 	for _, n := range t.order {
 		b.WriteString(strings.Replace(t.bodies[n], "(env : Env)", "(env : Env)", 1))
 		b.WriteString("\n")
